@@ -1,12 +1,460 @@
-/- C18 model — placeholder until the property is built -/
+/-
+  C18 — `FileCacheConc`: small-step concurrent machine of klongpy/db/file_cache.py `FileCache`.
+
+  Shared state = what `file_futures_lock` protects (entry table `file_futures`, the names of the
+  access list `file_access_times`, the byte total `current_memory_usage`) + the disk + worker
+  tasks / futures + per-client program counters.  One atomic step =
+
+    client (get_file)     exists | getsize | lock block (lookup / submit load / touch) | wait
+    client (update_file)  lock block (writing check, _unload_file, submit write) | wait
+    client (unload_file)  lock block
+    task (_load_file)     read (open 'rb' + read) | lock block (update_file_futures_and_memory) | complete
+    task (_write_file)    trunc (open 'wb') | write | fsync | lock block | complete
+
+  The schedule (who runs next, and for a worker's lock block which entries `recover_memory`
+  evicts) is an INPUT; `step` returns `none` when the step is not enabled / the eviction
+  choice is not legal.  Eviction is relational exactly as in C16 (the heap order of the real
+  list is not modelled).
+
+  Mirrors (klongpy/db/file_cache.py):
+    get_file                          -> `cstep` (.get …)
+    update_file                       -> `cstep` (.update …)
+    unload_file / _unload_file        -> `cstep` (.unload …) / `unloadE`
+    _load_file / _write_file          -> `tstep`
+    update_file_futures_and_memory    -> `finBlock`
+    recover_memory                    -> `legalEv` + `evict`
+  Ghost (never read by the control flow of `step`): `Entry.counted`, `St.reg`, the `exp`
+  fields of `CPc.wait` and `Done`.
+-/
 import Klong.Model.Wire
 namespace Klong.C18
+open Klong.Wire
 
-structure State where
-  unit : Unit := ()
+abbrev Name := String
+abbrev Disk := List (Name × Bytes)
 
-def init : State := {}
+def dget (d : Disk) (n : Name) : Option Bytes := d.lookup n
+def dset (d : Disk) (n : Name) (b : Bytes) : Disk := (n, b) :: d.filter (fun p => p.1 != n)
 
-def handle (s : State) (_ws : List String) : State × String := (s, "bad-op")
+/-- `file_futures[name] = (writing, bytes, future)` -/
+structure Entry where
+  name : Name
+  writing : Bool
+  size : Nat
+  fut : Nat
+  counted : Bool      -- ghost: `size` has been added to the byte total
+deriving DecidableEq, Repr
+
+def findE (es : List Entry) (n : Name) : Option Entry := es.find? (fun e => e.name == n)
+def delE (es : List Entry) (n : Name) : List Entry := es.filter (fun e => e.name != n)
+def setE (es : List Entry) (e : Entry) : List Entry := e :: delE es e.name
+
+inductive Op
+  | get (n : Name)
+  | update (n : Name) (d : Bytes) (fsync : Bool)
+  | unload (n : Name)
+deriving DecidableEq, Repr
+
+inductive Exc | assertion | keyError | notFound
+deriving DecidableEq, Repr
+
+inductive TRes | ok (b : Bytes) | err (e : Exc)
+deriving DecidableEq, Repr
+
+inductive Res
+  | data (b : Bytes) | applied (ok : Bool) | done | notFound | memErr | raised (e : Exc)
+deriving DecidableEq, Repr
+
+/-- program counter of a client inside its current operation -/
+inductive CPc
+  | start                                  -- before the first step of the head operation
+  | gsize                                  -- get: exists() passed
+  | glock (claim : Nat)                    -- get: about to take the lock
+  | wait (f : Nat) (applied : Option Bool) (exp : Option Bytes)   -- future.result(); `exp` ghost
+deriving DecidableEq, Repr
+
+structure Done where
+  res : Res
+  exp : Option Bytes    -- ghost: register value when a get took the lock
+deriving DecidableEq, Repr
+
+structure Client where
+  ops : List Op
+  pc : CPc
+  results : List Done
+deriving DecidableEq, Repr
+
+inductive TPc
+  | read | trunc | write | fsync
+  | fin (v : Bytes)          -- about to enter update_file_futures_and_memory with contents `v`
+  | complete (r : TRes)      -- worker function returned / raised, future not yet done
+  | finished (r : TRes)      -- future done
+deriving DecidableEq, Repr
+
+structure Task where
+  name : Name
+  wr : Option (Bytes × Bool)     -- none = _load_file, some (data, use_fsync) = _write_file
+  pc : TPc
+deriving DecidableEq, Repr
+
+/-- the task's completion block has not run yet ("in flight") -/
+def Task.pre (t : Task) : Bool :=
+  match t.pc with
+  | .complete _ | .finished _ => false
+  | _ => true
+
+structure St where
+  max : Nat
+  mem : Int
+  entries : List Entry
+  acc : List Name
+  disk : Disk
+  reg : Disk                 -- ghost: data of the last update that took the `applied` branch
+  clients : List Client
+  tasks : List Task
+deriving Repr
+
+inductive Lbl | exists_ | getsize | lock | wait | read | trunc | write | fsync | complete
+deriving DecidableEq, Repr
+
+inductive Who | client (i : Nat) | task (i : Nat)
+deriving DecidableEq, Repr
+
+structure Step where
+  who : Who
+  lbl : Lbl
+  ev : List Name := []
+deriving DecidableEq, Repr
+
+def init (max : Nat) (disk : Disk) (progs : List (List Op)) : St :=
+  { max, mem := 0, entries := [], acc := [], disk, reg := disk,
+    clients := progs.map (fun ops => ⟨ops, .start, []⟩), tasks := [] }
+
+/-! ### protected-state helpers -/
+
+/-- `_unload_file` -/
+def unloadE (s : St) (n : Name) : St :=
+  match findE s.entries n with
+  | some e => { s with mem := s.mem - e.size, entries := delE s.entries n }
+  | none => s
+
+/-- the pops of `recover_memory` that unload: each evicted name leaves the access list -/
+def evict (s : St) : List Name → St
+  | [] => s
+  | x :: xs => evict { (unloadE s x) with acc := s.acc.filter (· != x) } xs
+
+def evictable (s : St) (x : Name) : Bool :=
+  s.acc.contains x && (match findE s.entries x with | some e => !e.writing | none => false)
+
+/-- what the loop of `recover_memory(claim)` may have unloaded: only non-writing entries of the
+    access list, nothing unless the claim did not fit, and afterwards the claim fits or the
+    list is exhausted -/
+def legalEv (s : St) (ev : List Name) (claim : Nat) : Bool :=
+  ev.all (evictable s) &&
+  (ev.isEmpty || decide (s.mem + claim > s.max)) &&
+  (decide ((evict s ev).mem + claim ≤ s.max) || s.acc.all (fun x => !evictable s x || ev.contains x))
+
+def taskRes (s : St) (f : Nat) : Option TRes :=
+  match s.tasks[f]? with
+  | some t => (match t.pc with | .finished r => some r | _ => none)
+  | none => none
+
+def finishOp (s : St) (i : Nat) (c : Client) (r : Done) : St :=
+  { s with clients := s.clients.set i ⟨c.ops.tail, .start, c.results ++ [r]⟩ }
+
+def setPc (s : St) (i : Nat) (c : Client) (pc : CPc) : St :=
+  { s with clients := s.clients.set i { c with pc := pc } }
+
+def setT (s : St) (f : Nat) (t : Task) (pc : TPc) : St :=
+  { s with tasks := s.tasks.set f { t with pc := pc } }
+
+def resOfT : TRes → Res
+  | .ok b => .data b
+  | .err .notFound => .notFound
+  | .err e => .raised e
+
+/-! ### client steps -/
+
+def cstep (s : St) (i : Nat) (c : Client) : Option St :=
+  match c.ops with
+  | [] => none
+  | .get n :: _ =>
+    match c.pc with
+    | .start =>                                   -- os.path.exists
+      match dget s.disk n with
+      | none => some (finishOp s i c ⟨.notFound, none⟩)
+      | some _ => some (setPc s i c .gsize)
+    | .gsize =>                                   -- os.path.getsize
+      match dget s.disk n with
+      | none => some (finishOp s i c ⟨.notFound, none⟩)
+      | some b =>
+        if b.length > s.max then some (finishOp s i c ⟨.memErr, none⟩)
+        else some (setPc s i c (.glock b.length))
+    | .glock claim =>                             -- with self.file_futures_lock
+      match findE s.entries n with
+      | none =>
+        let f := s.tasks.length
+        some (setPc { s with entries := setE s.entries ⟨n, false, claim, f, false⟩
+                           , tasks := s.tasks ++ [⟨n, none, .read⟩] } i c (.wait f none (dget s.reg n)))
+      | some e =>
+        let acc' := if (taskRes s e.fut).isSome then s.acc.filter (· != n) ++ [n] else s.acc
+        some (setPc { s with acc := acc' } i c (.wait e.fut none (dget s.reg n)))
+    | .wait f _ exp =>                            -- future.result()
+      match taskRes s f with
+      | some r => some (finishOp s i c ⟨resOfT r, exp⟩)
+      | none => none
+  | .update n d fs :: _ =>
+    match c.pc with
+    | .start =>
+      if d.length > s.max then some (finishOp s i c ⟨.memErr, none⟩)   -- raised before the lock
+      else
+        let busy := match findE s.entries n with
+          | some e => if e.writing then some e.fut else none
+          | none => none
+        match busy with
+        | some f => some (setPc s i c (.wait f (some false) none))
+        | none =>
+          let s1 := unloadE s n
+          let f := s1.tasks.length
+          some (setPc { s1 with entries := setE s1.entries ⟨n, true, d.length, f, false⟩
+                              , tasks := s1.tasks ++ [⟨n, some (d, fs), .trunc⟩]
+                              , reg := dset s1.reg n d } i c (.wait f (some true) none))
+    | .wait f a _ =>
+      match taskRes s f with
+      | some (.ok _) => some (finishOp s i c ⟨.applied (a.getD false), none⟩)
+      | some (.err e) => some (finishOp s i c ⟨resOfT (.err e), none⟩)
+      | none => none
+    | _ => none
+  | .unload n :: _ =>
+    match c.pc with
+    | .start =>
+      let s1 := unloadE s n
+      some (finishOp { s1 with acc := s1.acc.filter (· != n) } i c ⟨.done, none⟩)
+    | _ => none
+
+/-! ### worker steps -/
+
+/-- `update_file_futures_and_memory(name, len v)` under the lock, eviction choice `ev` -/
+def finBlock (s : St) (f : Nat) (t : Task) (v : Bytes) (ev : List Name) : Option St :=
+  if v.length > s.max then                       -- assert claim <= self.max_memory
+    if ev.isEmpty then some (setT s f t (.complete (.err .assertion))) else none
+  else if !legalEv s ev v.length then none
+  else
+    let s1 := evict s ev
+    match findE s1.entries t.name with
+    | none => some (setT s1 f t (.complete (.err .assertion)))     -- assert info is not None
+    | some e =>
+      if s1.mem + v.length ≤ s1.max then
+        some (setT { s1 with acc := s1.acc.filter (· != t.name) ++ [t.name]
+                           , mem := s1.mem + v.length
+                           , entries := setE s1.entries ⟨t.name, false, v.length, e.fut, true⟩ }
+                f t (.complete (.ok v)))
+      else
+        some (setT { s1 with entries := delE s1.entries t.name } f t (.complete (.ok v)))
+
+def tstep (s : St) (f : Nat) (t : Task) (ev : List Name) : Option St :=
+  match t.pc with
+  | .read =>
+    match dget s.disk t.name with
+    | some b => some (setT s f t (.fin b))
+    | none => some (setT s f t (.complete (.err .notFound)))
+  | .trunc => some (setT { s with disk := dset s.disk t.name [] } f t .write)
+  | .write =>
+    match t.wr with
+    | some (d, fs) => some (setT { s with disk := dset s.disk t.name d } f t (if fs then .fsync else .fin d))
+    | none => none
+  | .fsync =>
+    match t.wr with
+    | some (d, _) => some (setT s f t (.fin d))
+    | none => none
+  | .fin v => finBlock s f t v ev
+  | .complete r => some (setT s f t (.finished r))
+  | .finished _ => none
+
+def lblC (c : Client) : Option Lbl :=
+  match c.ops with
+  | [] => none
+  | .get _ :: _ =>
+    (match c.pc with
+     | .start => some .exists_ | .gsize => some .getsize | .glock _ => some .lock | .wait .. => some .wait)
+  | _ :: _ =>
+    (match c.pc with
+     | .start => some .lock | .wait .. => some .wait | _ => none)
+
+def lblT (t : Task) : Option Lbl :=
+  match t.pc with
+  | .read => some .read | .trunc => some .trunc | .write => some .write | .fsync => some .fsync
+  | .fin _ => some .lock | .complete _ => some .complete | .finished _ => none
+
+def step (s : St) (st : Step) : Option St :=
+  match st.who with
+  | .client i =>
+    match s.clients[i]? with
+    | some c => if lblC c = some st.lbl && st.ev.isEmpty then cstep s i c else none
+    | none => none
+  | .task f =>
+    match s.tasks[f]? with
+    | some t => if lblT t = some st.lbl then tstep s f t st.ev else none
+    | none => none
+
+def run (s : St) : List Step → Option St
+  | [] => some s
+  | st :: rest =>
+    match step s st with
+    | some s' => run s' rest
+    | none => none
+
+/-- decidable enabledness test (independent of the eviction choice) -/
+def enabled (s : St) : Who → Bool
+  | .client i =>
+    match s.clients[i]? with
+    | some c =>
+      (match c.ops, c.pc with
+       | [], _ => false
+       | _ :: _, .wait f _ _ => (taskRes s f).isSome
+       | _ :: _, _ => true)
+    | none => false
+  | .task f =>
+    match s.tasks[f]? with
+    | some t => (match t.pc with | .finished _ => false | _ => true)
+    | none => false
+
+def quiescent (s : St) : Bool :=
+  s.clients.all (fun c => c.ops.isEmpty) && s.tasks.all (fun t => match t.pc with | .finished _ => true | _ => false)
+
+/-! ### the hazard-free ("safe") schedules of the partial theorems -/
+
+/-- a task of file `n` is in flight (loads only, or any) -/
+def inflight (s : St) (n : Name) (loadsOnly : Bool) : Bool :=
+  s.tasks.any (fun t => t.name == n && t.pre && (!loadsOnly || t.wr.isNone))
+
+/-- the step does not take the lock for an update of a file whose load is in flight, nor for an
+    unload of a file whose load or write is in flight -/
+def safe (s : St) (st : Step) : Bool :=
+  match st.who with
+  | .task _ => true
+  | .client i =>
+    match s.clients[i]? with
+    | some c =>
+      (match c.ops, c.pc with
+       | .update n _ _ :: _, .start => !inflight s n true
+       | .unload n :: _, .start => !inflight s n false
+       | _, _ => true)
+    | none => true
+
+def runSafe (s : St) : List Step → Option St
+  | [] => some s
+  | st :: rest =>
+    if safe s st then
+      match step s st with
+      | some s' => runSafe s' rest
+      | none => none
+    else none
+
+/-! ### driver -/
+
+def showRes : Res → String
+  | .data b => s!"data:{toHex b}"
+  | .applied ok => s!"applied:{if ok then 1 else 0}"
+  | .done => "done"
+  | .notFound => "notfound"
+  | .memErr => "memerr"
+  | .raised .assertion => "raises:AssertionError"
+  | .raised .keyError => "raises:KeyError"
+  | .raised .notFound => "notfound"
+
+def sortJoin (xs : List String) (sep : String) : String :=
+  sep.intercalate (xs.toArray.qsort (· < ·)).toList
+
+def showTRes : TRes → String
+  | .ok b => s!"ok:{toHex b}"
+  | .err .assertion => "err:AssertionError"
+  | .err .keyError => "err:KeyError"
+  | .err .notFound => "err:FileNotFoundError"
+
+def showTask (t : Task) : String :=
+  match t.pc with
+  | .finished r => showTRes r
+  | _ => "pending"
+
+def digest (s : St) : String :=
+  let es := sortJoin (s.entries.map fun e => s!"{e.name}/{if e.writing then 1 else 0}/{e.size}/{e.fut}") ","
+  let dk := sortJoin (s.disk.map fun p => s!"{p.1}@{toHex p.2}") ","
+  let ts := ",".intercalate (s.tasks.map showTask)
+  let rs := "|".intercalate (s.clients.map fun c => ";".intercalate (c.results.map fun r => showRes r.res))
+  s!"mem={s.mem} entries={es} acc={sortJoin s.acc ","} disk={dk} tasks={ts} res={rs}"
+
+def showWho : Who → String
+  | .client i => s!"C{i}"
+  | .task f => s!"K{f}"
+
+def enabledSet (s : St) : String :=
+  let cs := (List.range s.clients.length).filter (fun i => enabled s (.client i)) |>.map (fun i => s!"C{i}")
+  let ts := (List.range s.tasks.length).filter (fun i => enabled s (.task i)) |>.map (fun i => s!"K{i}")
+  ",".intercalate (cs ++ ts)
+
+def parseWho (w : String) : Option Who :=
+  match w.toList with
+  | 'C' :: r => (String.ofList r).toNat?.map Who.client
+  | 'K' :: r => (String.ofList r).toNat?.map Who.task
+  | _ => none
+
+def parseLbl : String → Option Lbl
+  | "exists" => some .exists_ | "getsize" => some .getsize | "lock" => some .lock
+  | "wait" => some .wait | "read" => some .read | "trunc" => some .trunc
+  | "write" => some .write | "fsync" => some .fsync | "complete" => some .complete
+  | _ => none
+
+/-- `C0/lock/` or `K1/lock/a+b` -/
+def parseStep (w : String) : Option Step :=
+  match w.splitOn "/" with
+  | [who, lbl, ev] => do
+    let who ← parseWho who
+    let lbl ← parseLbl lbl
+    pure ⟨who, lbl, splitOnChar ev '+'⟩
+  | _ => none
+
+/-- `g:a`, `u:a:hex:1`, `x:a` -/
+def parseOp (w : String) : Option Op :=
+  match w.splitOn ":" with
+  | ["g", n] => some (.get n)
+  | ["x", n] => some (.unload n)
+  | ["u", n, hx, fs] => (parseHex hx).map fun d => .update n d (fs == "1")
+  | _ => none
+
+def parseProgs (w : String) : Option (List (List Op)) :=
+  (w.splitOn "|").mapM fun t => (splitOnChar t ';').mapM parseOp
+
+def parseFiles (w : String) : Option Disk :=
+  (splitOnChar w ',').mapM fun item =>
+    match item.splitOn ":" with
+    | [n, hx] => (parseHex hx).map fun b => (n, b)
+    | _ => none
+
+/-- run a schedule, collecting the enabled set before every step; stops at the first refused step -/
+def runTrace (s : St) (acc : List String) (k : Nat) : List Step → St × List String × Option Nat
+  | [] => (s, acc, none)
+  | st :: rest =>
+    match step s st with
+    | some s' => runTrace s' (acc ++ [enabledSet s]) (k + 1) rest
+    | none => (s, acc ++ [enabledSet s], some k)
+
+/-- the driver is stateless: every request carries the scenario and the whole schedule -/
+def handle (s : St) (ws : List String) : St × String :=
+  match ws with
+  | "run" :: rest =>
+    let fs := fields rest
+    match natField fs "max", parseFiles (fieldD fs "files"), parseProgs (fieldD fs "progs"),
+          (splitOnChar (fieldD fs "sched") ',').mapM parseStep with
+    | some m, some files, some progs, some sched =>
+      let s0 := init m files progs
+      let (s1, ens, stuck) := runTrace s0 [] 0 sched
+      let safeRun := (runSafe s0 sched).isSome
+      match stuck with
+      | none =>
+        (s, s!"ok safe={if safeRun then 1 else 0} quiescent={if quiescent s1 then 1 else 0} en={";".intercalate ens} final={enabledSet s1} {digest s1}")
+      | some k => (s, s!"refused at={k} en={";".intercalate ens} {digest s1}")
+    | _, _, _, _ => (s, "bad-op")
+  | _ => (s, "bad-op")
 
 end Klong.C18
